@@ -206,6 +206,9 @@ class SimFS:
         self.on_fire = on_fire or (lambda kind: None)
         self.opened = []            # (path, mode, outcome)
         self.handles = []           # weak references to open write handles
+        # encoding of the simulated locale: what a text-mode open() without
+        # an explicit encoding uses (utf-8 unless the run says otherwise)
+        self.locale_encoding = "utf-8"
         self.cwd = ""               # simulated working directory (relative
         #                             to the root of the simulated disk)
         for p, e in (entries or {}).items():
@@ -277,7 +280,7 @@ class SimFS:
             buf = io.BufferedReader(raw, buffer_size=32)
             if binary:
                 return buf
-            return io.TextIOWrapper(buf, encoding=encoding or "utf-8",
+            return io.TextIOWrapper(buf, encoding=self._enc(encoding),
                                     errors=errors, newline=newline)
         # writing / appending
         parent = os.path.dirname(path)
@@ -308,11 +311,18 @@ class SimFS:
         self.opened.append((path, mode, "ok"))
         buf = io.BufferedWriter(raw, buffer_size=64)
         h = buf if binary else io.TextIOWrapper(
-            buf, encoding=encoding or "utf-8", errors=errors,
+            buf, encoding=self._enc(encoding), errors=errors,
             newline=newline)
         import weakref
         self.handles.append(weakref.ref(h))
         return h
+
+    def _enc(self, encoding):
+        if encoding is None or encoding == "locale":
+            if self.locale_encoding != "utf-8":
+                self.on_fire("locale_encoding_used:" + self.locale_encoding)
+            return self.locale_encoding
+        return encoding
 
     def process_exit(self):
         """Model process termination: flush and close what is still open."""
